@@ -30,7 +30,7 @@ ASSUMPTIONS = [
 # kernel-level, CUDA-simulator, interpreted-kernel and probe routes add reach and are reported in
 # the evidence counters; post_check() makes the run inconclusive if NONE of them was reached.
 DECIDING_COUNTERS = ["bins_compared"]
-MIN_NONTRIVIAL = {"quick": 800, "thorough": 8000}
+MIN_NONTRIVIAL = {"quick": 400, "thorough": 4000}
 JOBS = {"quick": 10, "thorough": 16}
 
 L_QUICK = [1, 2, 3, 4, 5, 7, 8, 16, 31, 64, 100, 257, 1024, 4096]
@@ -51,7 +51,7 @@ def shards(tier, seed):
     out.append({"name": "cudasim", "threads": 1, "timeout": budget * 4 + 300,
                 "env": {"NUMBA_ENABLE_CUDASIM": "1"},
                 "params": {"kind": "cuda", "seed": seed, "shard": 100, "n": n_cuda,
-                           "tier": tier, "budget_s": budget}})
+                           "tier": tier, "budget_s": budget * 3}})
     out.append({"name": "api", "threads": 2, "timeout": budget * 4 + 300,
                 "params": {"kind": "api", "seed": seed, "shard": 200,
                            "n": 24 if tier == "quick" else 300, "budget_s": budget}})
